@@ -52,7 +52,7 @@ Qed.
 Lemma strip_item_of t : strip (item_of t true) = (t_tag t, t_fid t).
 Proof. reflexivity. Qed.
 
-Lemma item_ok_new t : item_ok (has_id t) (mkItem (t_tag t) (t_fid t) true) = true.
+Lemma item_ok_new t : item_ok (has_id t) (mkItem (t_tag t) (t_fid t) true (t_size t)) = true.
 Proof. unfold item_ok, has_id; cbn. now destruct (t_fid t). Qed.
 
 Lemma forallb_app_one {A} (f : A -> bool) l x : forallb f (l ++ [x]) = forallb f l && f x.
@@ -128,8 +128,8 @@ Lemma cur_items_set_cache fs h c : cur_items fs (set_cache h c) = cur_items fs h
 Proof. reflexivity. Qed.
 
 Lemma get_item_spec fs h i : hinv fs h -> files_ok fs ->
-  exists c, fst (get_item fs h i) = set_cache h c /\ hinv fs (set_cache h c) /\
-            snd (get_item fs h i) = match nth_error (cur_items fs h) i with
+  exists c, fst (get_item fixed_cfg fs h i) = set_cache h c /\ hinv fs (set_cache h c) /\
+            snd (get_item fixed_cfg fs h i) = match nth_error (cur_items fs h) i with
                                     | Some x => inl (tag x) | None => inr EIndex end.
 Proof.
   intros H Fok. unfold get_item, cur_items. pose proof H as H0. unfold hinv in H.
@@ -143,11 +143,15 @@ Proof.
       * exists (h_cache h). rewrite set_cache_id. cbn.
         rewrite (cache_all_ok_get _ _ _ _ C G). auto.
       * rewrite nc_load_single. destruct (nth_error (f_items f) i) as [x|] eqn:N.
-        -- rewrite (file_ok_whole f i x (Fok _ _ L) N). cbn. exists ((i, x) :: h_cache h).
-           repeat split; auto. apply hinv_set_cache; auto.
-           ++ intros p' f' E _ L'. rewrite Es in E. inversion E; subst p'. rewrite L in L'. inversion L'; subst f'.
-              now apply cache_all_ok_cons.
-           ++ congruence.
+        -- unfold loaded. rewrite (file_ok_whole f i x (Fok _ _ L) N). cbn [fix_C07a fixed_cfg].
+           destruct (fits h (isize x)).
+           ++ cbn. exists ((i, x) :: h_cache h).
+              repeat split; auto. apply hinv_set_cache; auto.
+              ** intros p' f' E _ L'. rewrite Es in E. inversion E; subst p'. rewrite L in L'. inversion L'; subst f'.
+                 now apply cache_all_ok_cons.
+              ** congruence.
+           ++ (* larger than the whole cache: handed back uncached *)
+              exists (h_cache h). rewrite set_cache_id. cbn. auto.
         -- exists (h_cache h). rewrite set_cache_id. cbn. auto.
 Qed.
 
@@ -174,15 +178,15 @@ Proof. reflexivity. Qed.
 
 Lemma iter_go_spec fs : files_ok fs -> forall m a h keeps acc,
   hinv fs h -> a + m = length (cur_items fs h) ->
-  exists c, fst (iter_go fs h (seq a m) keeps acc) = set_cache h c /\ hinv fs (set_cache h c) /\
-            snd (iter_go fs h (seq a m) keeps acc)
+  exists c, fst (iter_go fixed_cfg fs h (seq a m) keeps acc) = set_cache h c /\ hinv fs (set_cache h c) /\
+            snd (iter_go fixed_cfg fs h (seq a m) keeps acc)
             = OItems (rev acc ++ map tag (skipn a (cur_items fs h))) None.
 Proof.
   intros Fok. induction m as [|m IH]; intros a h keeps acc H Hl; cbn [seq iter_go].
   - exists (h_cache h). rewrite set_cache_id. repeat split; auto. cbn.
     rewrite skipn_all2 by lia. cbn. now rewrite app_nil_r.
   - destruct (get_item_spec fs h a H Fok) as (c & E1 & H1 & E2).
-    destruct (get_item fs h a) as [h1 r] eqn:G. cbn in E1, E2. subst h1.
+    destruct (get_item fixed_cfg fs h a) as [h1 r] eqn:G. cbn in E1, E2. subst h1.
     destruct (nth_error (cur_items fs h) a) as [x|] eqn:N.
     2:{ apply nth_error_None in N. lia. }
     subst r.
@@ -307,7 +311,7 @@ Proof. reflexivity. Qed.
 Definition is_full (h : handle) (t : traj) : bool :=
   match h_src h with SrcMem cap => cap <? h_used h + t_size t | _ => false end.
 Definition too_large (h : handle) (t : traj) : bool :=
-  match cache_cap h with Some cp => cp <? t_size t | None => false end.
+  match h_src h with SrcMem cap => cap <? t_size t | _ => false end.
 
 Lemma add_eq fs h t : hinv fs h -> h_mode h <> MRead ->
   (acceptable (model_def fs h) t = false /\
@@ -317,7 +321,7 @@ Lemma add_eq fs h t : hinv fs h -> h_mode h <> MRead ->
                           else if is_full h t then (fs, h, OErr EFull)
                           else (fst (insert fs h t true), snd (insert fs h t true), OIdx (h_next h))).
 Proof.
-  intros Hi Md. unfold add, is_full, too_large. cbn [fix_C10a fix_F6 fixed_cfg].
+  intros Hi Md. unfold add, is_full, too_large. cbn [fix_C10a fix_F6 fix_C07b fixed_cfg].
   destruct (h_mode h) eqn:Em; [congruence| |].
   all: unfold model_def, acceptable.
   all: destruct (def_cases fs h Hi) as [(Es & Ei)|(s & b & Es & Ei)]; rewrite Es, Ei; cbn [andb negb].
@@ -327,13 +331,13 @@ Proof.
   all: try (left; split; [reflexivity|eexists; split; [reflexivity|reflexivity]]).
   all: right; split; [reflexivity|].
   all: destruct (insert fs h t true) as [fs1 h1]; cbn [fst snd];
-       destruct (match cache_cap h with Some cp => cp <? t_size t | None => false end);
+       destruct (match h_src h with SrcMem cap => cap <? t_size t | _ => false end);
        destruct (match h_src h with SrcMem cap => cap <? h_used h + t_size t | _ => false end); reflexivity.
 Qed.
 
 Lemma insert_mem fs h t cap : h_src h = SrcMem cap ->
   insert fs h t true =
-  (fs, mkH (SrcMem cap) (h_mode h) (S (h_next h)) (h_cache h) (h_mem h ++ [mkItem (t_tag t) (t_fid t) true])
+  (fs, mkH (SrcMem cap) (h_mode h) (S (h_next h)) (h_cache h) (h_mem h ++ [mkItem (t_tag t) (t_fid t) true (t_size t)])
            (h_snap h) (Some (match h_indexable h with Some b => b | None => has_id t end))
            (if match h_indexable h with Some b => b | None => has_id t end then true else h_stale h)
            (h_pending h) (match h_msig h with Some s => Some s | None => Some (t_sig t) end)
@@ -343,7 +347,8 @@ Proof. intros E. unfold insert. rewrite E. reflexivity. Qed.
 Lemma insert_pending fs h t p : h_src h = SrcFile p -> h_pending h = true -> h_indexable h = None ->
   insert fs h t true =
   (fupd p (NFile (mkNc [item_of t true] (t_sig t) (has_id t) [])) fs,
-   mkH (SrcFile p) (h_mode h) (S (h_next h)) ((h_next h, mkItem (t_tag t) (t_fid t) true) :: h_cache h) (h_mem h)
+   mkH (SrcFile p) (h_mode h) (S (h_next h))
+       (if fits h (t_size t) then (h_next h, mkItem (t_tag t) (t_fid t) true (t_size t)) :: h_cache h else h_cache h) (h_mem h)
        (h_snap h) (Some (has_id t)) (if has_id t then true else h_stale h) false (h_msig h) (h_cap h) (h_used h) (h_iters h)).
 Proof. intros E P Ix. unfold insert. rewrite E, P, Ix. reflexivity. Qed.
 
@@ -351,7 +356,8 @@ Lemma insert_open fs h t p f b : h_src h = SrcFile p -> h_pending h = false ->
   flookup p fs = Some (NFile f) -> h_indexable h = Some b ->
   insert fs h t true =
   (fupd p (NFile (mkNc (f_items f ++ [item_of t true]) (f_sig f) (f_hasidx f) (f_table f))) fs,
-   mkH (SrcFile p) (h_mode h) (S (h_next h)) ((h_next h, mkItem (t_tag t) (t_fid t) true) :: h_cache h) (h_mem h)
+   mkH (SrcFile p) (h_mode h) (S (h_next h))
+       (if fits h (t_size t) then (h_next h, mkItem (t_tag t) (t_fid t) true (t_size t)) :: h_cache h else h_cache h) (h_mem h)
        (h_snap h) (Some b) (if b then true else h_stale h) false (h_msig h) (h_cap h) (h_used h) (h_iters h)).
 Proof. intros E P L Ix. unfold insert. rewrite E, P, L, Ix. reflexivity. Qed.
 
@@ -374,7 +380,6 @@ Lemma spec_add_accept s h t : s_h s = Some h -> sh_mode h <> MRead -> acceptable
                              (sh_mode h) (sh_cap h) (sh_iters h))),
             OIdx (length items))
   | SLFile p =>
-      if match sh_cap h with Some cp => cp <? t_size t | None => false end then (s, OErr ETooLarge) else
       let st := match slookup p (s_fs s) with Some st => st | None => mkS [] (t_sig t) (has_id t) end in
       (mkSW (supd p (mkS (ss_items st ++ [(t_tag t, t_fid t)]) (ss_sig st) (ss_ident st)) (s_fs s)) (Some h),
        OIdx (length (ss_items st)))
@@ -457,7 +462,7 @@ Proof.
       * intros h0 E0. injection E0 as <-. unfold hinv; cbn.
         eexists. rewrite flookup_fupd_eq. split; [reflexivity|]. cbn. rewrite Nx, Hc.
         repeat split; auto.
-        -- intros i x [E|[]]. now injection E as <- <-.
+        -- destruct (fits h (t_size t)); [|intros i x []]. intros i x [E|[]]. now injection E as <- <-.
         -- intros Em. congruence.
         -- destruct (has_id t); auto. congruence.
     + rewrite abs_fs_fupd. reflexivity.
@@ -480,7 +485,8 @@ Proof.
       * intros h0 E0. injection E0 as <-. unfold hinv; cbn.
         eexists. rewrite flookup_fupd_eq. split; [reflexivity|]. cbn.
         repeat split; auto.
-        -- apply cache_all_ok_cons; [now apply cache_all_ok_app|].
+        -- destruct (fits h (t_size t)); [|now apply cache_all_ok_app].
+           apply cache_all_ok_cons; [now apply cache_all_ok_app|].
            rewrite (Nx Mr), nth_error_app2 by lia. now rewrite Nat.sub_diag.
         -- intros _. rewrite app_length; cbn. rewrite (Nx Mr). lia.
         -- intros Em. contradiction.
@@ -515,8 +521,6 @@ Proof.
          | destruct (accept_mem fs h t cap I Es A) as (F1 & F2 & F3 & F4);
            injection E as <- <- <-; rewrite F1; split; auto;
            unfold abs; cbn [w_fs w_h option_map s_fs]; rewrite F3, F4, map_length; reflexivity]].
-  all: destruct (match h_cap h with Some cp => cp <? t_size t | None => false end);
-       [injection E as <- <- <-; split; auto|].
   all: destruct (accept_file fs h t p I Es Mr A) as (F1 & F2 & F3 & F4);
        injection E as <- <- <-; split; auto;
        unfold abs; cbn [w_fs w_h option_map s_fs]; rewrite F2, F3, F4; reflexivity.
@@ -594,7 +598,7 @@ Proof.
     destruct (table_lookup id (mk_table (f_items f))) as [idx|] eqn:T.
     + apply mk_table_lookup in T as (it & Hn & Hf); auto.
       destruct (get_item_spec fs' h' idx (inv_handle _ I' _ eq_refl) (Inv_files_ok _ I')) as (c & G1 & G2 & G3).
-      destruct (get_item fs' h' idx) as [h2 rr]. cbn in G1, G2, G3. subst h2.
+      destruct (get_item fixed_cfg fs' h' idx) as [h2 rr]. cbn in G1, G2, G3. subst h2.
       rewrite Hcur, Hn in G3. subst rr. injection E as <- <- <-.
       split; [now apply Inv_set_cache|]. rewrite abs_set_cache, Habs. f_equal.
       now rewrite (sfind_unique id (f_items f) N idx it Hn Hf).
@@ -654,7 +658,7 @@ Proof.
       eapply add_refines; eauto.
     + (* Get *)
       destruct (get_item_spec fs h i Hi (Inv_files_ok _ I)) as (c & G1 & G2 & G3).
-      destruct (get_item fs h i) as [h1 rr]. cbn in G1, G2, G3. subst h1 rr. injection E as <- <-.
+      destruct (get_item fixed_cfg fs h i) as [h1 rr]. cbn in G1, G2, G3. subst h1 rr. injection E as <- <-.
       split; [now apply Inv_set_cache|]. rewrite abs_set_cache.
       unfold spec_step. cbn [abs s_h w_h option_map].
       change (mkSW (abs_fs (w_fs (mkW fs (Some h)))) (Some (abs_h h))) with (abs (mkW fs (Some h))).
@@ -669,7 +673,7 @@ Proof.
       rewrite (store_len_cur fs h Hi) in E. unfold seqn in E.
       destruct (iter_go_spec fs (Inv_files_ok _ I) (length (cur_items fs h)) 0 h keeps [] Hi eq_refl)
         as (c & G1 & G2 & G3).
-      destruct (iter_go fs h (seq 0 (length (cur_items fs h))) keeps []) as [h1 rr].
+      destruct (iter_go fixed_cfg fs h (seq 0 (length (cur_items fs h))) keeps []) as [h1 rr].
       cbn in G1, G2, G3. subst h1 rr. injection E as <- <-.
       split; [now apply Inv_set_cache|]. rewrite abs_set_cache.
       unfold spec_step. cbn [abs s_h w_h option_map].
@@ -708,7 +712,7 @@ Proof.
       destruct (cur <? length (cur_items fs h)) eqn:Elt.
       * apply Nat.ltb_lt in Elt.
         destruct (nth_error (cur_items fs h) cur) as [x|] eqn:N; [|apply nth_error_None in N; lia].
-        destruct (get_item fs h cur) as [h1 rr]. cbn in G1, G2, G3. subst h1 rr.
+        destruct (get_item fixed_cfg fs h cur) as [h1 rr]. cbn in G1, G2, G3. subst h1 rr.
         injection E as <- <-. split.
         -- apply Inv_set_iters. now apply Inv_set_cache.
         -- reflexivity.
